@@ -133,14 +133,14 @@ Proof. intros w z H. destruct z as [|p|p]; [reflexivity|reflexivity|lia]. Qed.
 
 Definition np_digit_okb (d : N) : bool :=
   match decimal_of (dch d) with Some v => (v =? d)%N | None => false end
-  && negb (is_space (dch d)) && negb (dch d =? chr_us)%N && negb (dch d =? chr_minus)%N
+  && negb (is_intspace (dch d)) && negb (dch d =? chr_us)%N && negb (dch d =? chr_minus)%N
   && negb (dch d =? chr_plus)%N.
 
 Lemma np_digit_table_check : forallb np_digit_okb [0; 1; 2; 3; 4; 5; 6; 7; 8; 9]%N = true.
 Proof. vm_compute. reflexivity. Qed.
 
 Lemma ascii_digit_table : forall d, (d < 10)%N ->
-  decimal_of (dch d) = Some d /\ is_space (dch d) = false /\ dch d <> chr_us /\ dch d <> chr_minus
+  decimal_of (dch d) = Some d /\ is_intspace (dch d) = false /\ dch d <> chr_us /\ dch d <> chr_minus
   /\ dch d <> chr_plus.
 Proof.
   intros d Hd.
@@ -158,17 +158,17 @@ Proof.
   apply N.eqb_eq in H1. subst v. auto.
 Qed.
 
-Lemma np_lstrip_head : forall c r, is_space c = false -> lstrip (c :: r) = c :: r.
-Proof. intros c r H. cbn [lstrip]. rewrite H. reflexivity. Qed.
+Lemma np_lstrip_head : forall c r, is_intspace c = false -> lstrip_int (c :: r) = c :: r.
+Proof. intros c r H. cbn [lstrip_int]. rewrite H. reflexivity. Qed.
 
 Lemma np_strip_id : forall s,
-  (forall c, In c s -> is_space c = false) -> strip s = s.
+  (forall c, In c s -> is_intspace c = false) -> strip_int s = s.
 Proof.
-  intros s H. unfold strip.
-  assert (L1 : lstrip s = s).
+  intros s H. unfold strip_int.
+  assert (L1 : lstrip_int s = s).
   { destruct s as [|c r]; [reflexivity|]. apply np_lstrip_head. apply H. left. reflexivity. }
   rewrite L1.
-  assert (L2 : lstrip (rev s) = rev s).
+  assert (L2 : lstrip_int (rev s) = rev s).
   { destruct (rev s) as [|c r] eqn:E; [reflexivity|]. apply np_lstrip_head. apply H.
     apply in_rev. rewrite E. left. reflexivity. }
   rewrite L2. apply rev_involutive.
